@@ -262,7 +262,7 @@ func init() {
 func init() {
 	register("C18", func(r *Run) error {
 		return runB(r, &BSpec{
-			ID: "C18", Race: true, Grammars: [2]int{48, 480}, Cases: [2]int{50, 120},
+			ID: "C18", Race: true, Grammars: [2]int{96, 480}, Cases: [2]int{80, 120},
 			Gen: func(r *Run, i int, seed int) *gspec.Grammar {
 				switch i % 6 {
 				case 0, 1:
